@@ -36,10 +36,14 @@ func (o *c12Observer) WrapStreamingHandler(next StreamingHandlerFunc) StreamingH
 	}
 }
 
-func c12Handler(kind int, obs *c12Observer, extraCodec bool) *Handler {
+// extra codec names: none, a plain one, and one that itself contains the '+'
+// that separates protocol and codec in the media type.
+var c12ExtraNames = []string{"", "x", "x+y"}
+
+func c12Handler(kind int, obs *c12Observer, extraCodec string) *Handler {
 	opts := []HandlerOption{WithCodec(&stackCodec{}), WithCodec(&stackCodec{name: "json"}), WithCompressMinBytes(1 << 20), WithInterceptors(obs)}
-	if extraCodec {
-		opts = append(opts, WithCodec(&stackCodec{name: "x"}))
+	if extraCodec != "" {
+		opts = append(opts, WithCodec(&stackCodec{name: extraCodec}))
 	}
 	switch kind {
 	case 0:
@@ -69,10 +73,10 @@ func c12Handler(kind int, obs *c12Observer, extraCodec bool) *Handler {
 // c12Accepted is the reference set of content types, written from the
 // property: protocol prefixes x codec names, plus the bare gRPC types when a
 // proto codec is registered.
-func c12Accepted(kind int, extraCodec bool) []string {
+func c12Accepted(kind int, extraCodec string) []string {
 	names := []string{"proto", "json"}
-	if extraCodec {
-		names = append(names, "x")
+	if extraCodec != "" {
+		names = append(names, extraCodec)
 	}
 	var out []string
 	for _, n := range names {
@@ -113,7 +117,7 @@ func c12Body(kind int, ct string) []byte {
 //verif:harness property=C12 stubs=json,wire shard=kind:4
 func HarnessC12Guards() {
 	kind := nondetChoice("kind", 4)
-	extraCodec := nondetBool("extraCodec")
+	extraCodec := c12ExtraNames[nondetChoice("extraCodec", 3)]
 	obs := &c12Observer{}
 	handler := c12Handler(kind, obs, extraCodec)
 	accepted := c12Accepted(kind, extraCodec)
@@ -199,7 +203,7 @@ func HarnessC12ClientSpec() {
 	kind := nondetChoice("kind", 2) // unary, server stream
 	base := []string{"http://h.test", "http://h.test/", "http://h.test/api", "http://h.test/api/", "http://h.test/gw/v1", "https://h.test:8443/a.b"}[nondetChoice("base", 6)]
 	hobs, cobs := &c12Observer{}, &c12Observer{}
-	handler := c12Handler([]int{0, 2}[kind], hobs, false)
+	handler := c12Handler([]int{0, 2}[kind], hobs, "")
 	url := strings.TrimRight(base, "/") + "/pkg.Svc/Method"
 	client := NewClient[[]byte, []byte](&stackTransport{handler: handler}, url,
 		WithCodec(&stackCodec{}), WithCompressMinBytes(1<<20), WithInterceptors(cobs))
